@@ -19,7 +19,8 @@ IGNORED_FIELDS = {"_mode", "_workers", "_debug"}   # deliberately sticky / not s
 
 def build(case_spec, rid):
     tasks.register_run(rid, case_spec)
-    return tasks.build_task(case_spec, rid)
+    ra = case_spec.get("_raise_after")
+    return tasks.build_task(case_spec, rid, extra_data={"raise_after": ra} if ra is not None else None)
 
 
 def make_item(seed, k, variant=None):
@@ -45,6 +46,8 @@ def make_item(seed, k, variant=None):
             e["seed"] = rng.randint(0, 2 ** 32 - 1)
         else:
             e = universe.make_spec(rng, kind=rng.choice(kinds))
+        if rng.random() < 0.25:      # this earlier call aborts in the middle of the run (the objective raises after a budget)
+            e["_raise_after"] = int(cfg["population_size"] * rng.choice([1.5, 2.5, 4.5]))
         earlier.append(e)
     cfg0 = None
     if rng.random() < 0.3:      # the earlier runs used another configuration; set_config_parameters(cfg) precedes the judged call
@@ -127,6 +130,7 @@ def check(prop, tier, seed):
     judged = 0
     stopped = {"max_cycles": 0, "criterion": 0}
     hist = {1: 0, 2: 0}
+    aborted = 0
     for it, r in zip(items, res):
         rep.evaluations += 1
         if isinstance(r, Lost) or r.get("skip"):
@@ -138,6 +142,7 @@ def check(prop, tier, seed):
         for s in r["stopped_by"]:
             stopped[s] += 1
         hist[len(it["earlier"])] += 1
+        aborted += sum(1 for e, st_ in zip(it["earlier"], r["earlier_status"]) if e.get("_raise_after") is not None and st_ == "exc")
         if r.get("final_status") == "ok" and r.get("cycles", 0) >= 1 and "ok" in r["earlier_status"]:
             rep.distinct.add(it["k"])
         for v in r["viol"]:
@@ -146,7 +151,8 @@ def check(prop, tier, seed):
             rep.sample({"optimizer": r["opt"], "earlier_calls": [e["vars"] for e in it["earlier"]], "final_vars": it["final"]["vars"],
                         "config": it["cfg"], "fields_armed": r.get("armed"), "stale_reads": r.get("stale_fields")})
     rep.extra.update({"histories_judged": judged, "optimizers_observed": len(opts_seen), "armed_fields_total": armed_total,
-                      "earlier_runs_stopped_by": stopped, "histories_by_length": hist})
+                      "earlier_runs_stopped_by": stopped, "histories_by_length": hist,
+                      "earlier_runs_aborted_mid_run_by_a_raising_objective": aborted})
     rep.rule = ("history = 1 or 2 earlier optimize() calls (same or different task, ended by max_cycles / fitness_error / "
                 "early stopping) on one instance, then the judged call; oracle 1: canonical result == fresh instance's; "
                 "oracle 2: stale read of an armed field; non-trivial = earlier and final runs completed with >= 1 cycle")
